@@ -12,7 +12,11 @@ def funcs : List (String × String) := [
   ("internal/smtpconn/pool/pool.go:type Config", "f8c866989314a2fb"),
   ("internal/smtpconn/pool/pool.go:type Conn", "c18ce1995d22cd78"),
   ("internal/smtpconn/pool/pool.go:type P", "cdfc8bb966adb55c"),
-  ("internal/smtpconn/pool/pool.go:type slot", "f5771951da2f38b9")
+  ("internal/smtpconn/pool/pool.go:type slot", "f5771951da2f38b9"),
+  ("internal/target/remote/connect.go:mxConn.Close", "a87c899a8b6f3ffb"),
+  ("internal/target/remote/connect.go:mxConn.LastUseAt", "57d90aab20b0f7bb"),
+  ("internal/target/remote/connect.go:mxConn.Usable", "ec8b3ccfb58bf1fd"),
+  ("internal/target/remote/connect.go:type mxConn", "0938ffdedf648f9d")
 ]
 
 end MaddyVerif.Expect.FuncSkelC19
